@@ -240,6 +240,7 @@ pub fn run_c20(p: &Params) -> Outcome {
         max_subs: 4,
         poll_pct: 25,
         drop_vec_pct: 15,
+        drop_all_pm: 15,
     };
     let nt_vec = |f: &crate::engine_vec::Facts| f.msgs >= 1 && f.subs >= 1;
     let gen_a = "c20-vec";
